@@ -64,7 +64,7 @@ def doc_of_loaded(votes, n_seats, cands, title):
     pos = {id(c): i for i, c in enumerate(cands)}
     out_b = []
     for ballot, w in votes.items():
-        out_b.append([[pos[id(c)] for c in ballot], fstr(w)])
+        out_b.append([[pos.get(id(c), -1) for c in ballot], fstr(w)])     # -1: a ballot names somebody who is not in the list
     return {'seats': n_seats,
             'cands': [[c.name, bool(c.withdrawn)] for c in cands],
             'ballots': out_b,
@@ -568,6 +568,19 @@ def stv_tokenise(text):
     return hdr, votes
 
 
+def stv_blt_rest(text):
+    """the rest of an STV text after its first `ballots=` line as the BLT reader sees it (token lines of the BLT model), when that
+    line says `ballots=blt`; [] otherwise; None if an item is outside the token model"""
+    lines = text.split('\n')
+    for i, l in enumerate(lines):
+        h = stv_hline(l)
+        if h in ('invalid', 'candBad', 'ballotsBad') or (isinstance(h, dict) and 'ballots' in h):
+            return []
+        if h == 'ballotsBlt':
+            return blt_tokenise('\n'.join(lines[i + 1:]))
+    return []
+
+
 def stv_weight_model(w):
     x = weight_py(w)
     s = format(x, 'f') if isinstance(x, Decimal) else str(x)      # the writer spells a Decimal without exponent
@@ -582,3 +595,27 @@ def stv_weight_model(w):
     except Exception:
         ok = False
     return {'v': fstr(x), 'spellable': ok}
+
+
+def repeated_decimal_weight(text, fmt):
+    """the text lists one ballot more than once and one of those lines has a Decimal weight: the readers then add with Decimal
+    arithmetic (rounded to 28 digits, and not defined against a Fraction) — the hazard of the open finding on weight sums"""
+    seen = {}
+    for line in text.split('\n'):
+        if fmt == 'blt':
+            items = blt_clean(line).split()
+            if len(items) < 2 or items[-1] != '0' or items[0].startswith('-') or items[0].startswith('"'):
+                continue
+            w, key = items[0], tuple(items[1:-1])
+            dec = not w.isdigit() and '/' not in w
+        else:
+            items = line.strip().split()
+            if not items or line.strip() == 'end' or '=' in line:
+                continue
+            if items[0].endswith('X'):
+                w, key = items[0][:-1], tuple(items[1:])
+                dec = '.' in w and '/' not in w
+            else:
+                key, dec = tuple(items), False
+        seen.setdefault(key, []).append(dec)
+    return any(len(v) > 1 and any(v) for v in seen.values())
